@@ -307,6 +307,21 @@ def audit(prop):
 # ----------------------------------------------------------------------------------------------------
 # streams
 # ----------------------------------------------------------------------------------------------------
+_ENV_KEYS = None
+
+
+def env_keys():
+    """names of environment variables read by the library's own code (harness/envscan.py), once per run"""
+    global _ENV_KEYS
+    if _ENV_KEYS is None:
+        rc, txt = sh([runner.python_exe(), os.path.join(ROOT, 'harness', 'envscan.py')], env=dict(os.environ, HPACK_REPO=runner.repo_dir()), timeout=120)
+        try:
+            _ENV_KEYS = [k for k in json.loads(txt.strip().splitlines()[-1]) if not k.startswith(('PYTHON', 'HPACK_VERIF', 'HPACK_REPO'))]
+        except Exception:
+            _ENV_KEYS = []
+    return _ENV_KEYS
+
+
 def streams_for(prop, seed, tier, boost=1):
     """list of (name, ops, ctx). All randomness from Gen(seed-derived)."""
     T = tier == 'thorough'
@@ -472,6 +487,7 @@ def streams_for(prop, seed, tier, boost=1):
         add('dec-update-runs', genmod.dec_updates_stream(G('du'), n=10 * k))
         add('dec-setters', genmod.dec_setter_stream(G('ds'), n=8 * k))
         add('raise-then-reference', genmod.raise_then_reference_stream())
+        add('explicit-config', genmod.explicit_config_stream())
         add('utf8-limits', genmod.utf8_limit_stream())
         add('update-then-limit', genmod.update_then_limit_stream())
         add('small-sizes-allowed', genmod.small_sizes_allowed_stream())
@@ -604,6 +620,11 @@ def streams_for(prop, seed, tier, boost=1):
         add('copies', genmod.copy_stream(G('cp')))
         add('cross-encoder-sensitive', genmod.cross_encoder_sensitive_stream())
         add('ctor-options', genmod.ctor_options_stream(G('co2')), {'nocorr': True})
+    # environment variables the library itself reads (none on the unchanged tree): the explicit-configuration stream once per
+    # variable and plausible value, judged only
+    for key in env_keys()[:3]:
+        for val in ('1', '0', '1048576', '100', 'true'):
+            add('env-%s=%s' % (key, val), genmod.explicit_config_stream(), {'env': {key: val}, 'nocorr': True})
     # the application holds trivial SUBCLASSES of Encoder / Decoder / HeaderTable (a counter attribute, a helper method; nothing
     # overridden): a random stream of the property once more, constructed that way (the model is the same)
     if prop not in ('C11', 'C12', 'C13', 'C16'):
